@@ -61,7 +61,9 @@ def rules(model: Model, tier: str) -> List[RuleResult]:
     _single_sample_calls(model, XS)
     _one_context(model, XS)
     _hy = ac.hygiene_rules(model, ac.get_fncls(model, '_MCQuad'), PROP, min_copies=1, min_opt=2, min_conv=2, min_idx=8)
-    return [R1, R2, R3, R4, R5, R6, R6f, U, S, N, W, B, *_hy, XS]
+    from ..rules import substitution as _subst
+    _sub = _subst.rules(model, PROP, tier)
+    return [R1, R2, R3, R4, R5, R6, R6f, U, S, N, W, B, *_hy, XS, *_sub]
 
 
 def _unused_params(model: Model, U: RuleResult):
